@@ -79,9 +79,19 @@ func runCode(rows []string, o opts, warm []string) ([][]float64, error) {
 			return nil, fmt.Errorf("MLDist(first alignment): %v", err)
 		}
 	}
+	var given []float64
+	if o.Weights != nil {
+		given = append([]float64{}, o.Weights...)
+	}
 	_, _, d, err := m.MLDist(al, o.Weights)
 	if err != nil {
 		return nil, fmt.Errorf("MLDist: %v", err)
+	}
+	for i := range given {
+		if math.Float64bits(given[i]) != math.Float64bits(o.Weights[i]) {
+			// the caller's weights are an input: the next computation with the same slice means the same weights
+			return nil, fmt.Errorf("WEIGHTS-MODIFIED: the weight of site %d given by the caller was %v, it is %v after the call", i, given[i], o.Weights[i])
+		}
 	}
 	if d == nil {
 		return nil, fmt.Errorf("MLDist: nil matrix without error")
